@@ -371,6 +371,9 @@ class _Redirector:
                 os.dup2(self._old_stderr, 2)
                 os.close(self._new_stdout)
                 os.close(self._new_stderr)
+                # The saved descriptors are not needed anymore:
+                os.close(self._old_stdout)
+                os.close(self._old_stderr)
         else:
             yield
 
